@@ -8,5 +8,7 @@ CONSTANTS
   MaxVals = 2
   HookDepth = 2
   OwnBytes = FALSE
+  Nodes = {}
+  ConnConfig = "live"
 INVARIANTS StoredForm ReadBack OnlyWhenEnabled
 CHECK_DEADLOCK FALSE
